@@ -13,7 +13,9 @@ from . import e2e
 
 RULE = ("cases = (family, hyper-parameters, stream, history of fit/partial_fit calls with random batch sizes incl. "
         "size 1); checked after every call; non-trivial when >= 2 categories exist at the end; distinct by hash of "
-        "(family spec, stream, history)")
+        "(family spec, stream, history); plus histories whose caller-supplied match_reset_func re-enters the estimator "
+        "being trained with partial_fit (rehearsal of earlier rows), non-trivial when an inner call happened and >= 2 "
+        "categories exist")
 
 FAMS = families.ELEM + ["FusionART", "DualVigilanceART", "TopoART", "CVIART", "iCVIFuzzyART", "SimpleARTMAP", "ARTMAP"]
 
@@ -34,10 +36,13 @@ def label_objects(fam, est):
     return [(n, est, True)]
 
 
-def check_state(ctx, fam, est, expect_len, desc, where):
+def check_state(ctx, fam, est, expect_len, desc, where, positions_in_order=True, scenario=""):
+    """`positions_in_order=False`: the position of a label in labels_ is not the rank of its sample in the order of
+    presentation (re-entrant calls), so 'numbered in order of creation' cannot be read off first occurrences;
+    `scenario` is appended to the class in the issue signatures"""
     name = fam.name
     for oname, o, counters in label_objects(fam, est):
-        tag = f"{name}.{oname}" if oname != name else name
+        tag = (f"{name}.{oname}" if oname != name else name) + scenario
         if counters == "chan":
             # channel modules hold weights and counters; labels live on the fusion object
             labels = np.asarray(est.labels_)
@@ -73,7 +78,7 @@ def check_state(ctx, fam, est, expect_len, desc, where):
             if used != list(range(len(W))):
                 ctx.issue("violation", f"{tag}:empty-category", f"{where}: labels use {used}, |W|={len(W)}", rep)
             firsts = [labels.tolist().index(k) for k in used]
-            if firsts != sorted(firsts):
+            if positions_in_order and firsts != sorted(firsts):
                 ctx.issue("violation", f"{tag}:creation-order", f"{where}: first occurrences {firsts}", rep)
         if counters:
             cnt = [int(t) for t in o.weight_sample_counter_]
@@ -156,6 +161,7 @@ def run(ctx):
     label_dtypes(ctx)
     topo_emptied_then_partial(ctx)
     checkpoint_then_refit(ctx)
+    reentrant_reset(ctx)
     e2e.base_histories(ctx, "C05", ctx.scale(150, 3000), ctx.scale(20, 80), fields=("labels", "cnt"))
 
 
@@ -315,3 +321,99 @@ def checkpoint_then_refit(ctx):
             cov.hit(f"checkpoint:raised:{name}:{exc_enum(e)}")
             if key is not None:
                 cov.case(key, False)
+
+
+# estimators whose fit / partial_fit accept a caller-supplied match_reset_func (the ARTMAPs install their own, CVIART and
+# iCVIFuzzyART drive their base module with theirs)
+REENTRANT = families.ELEM + ["FusionART", "DualVigilanceART", "TopoART"]
+
+
+def reentrant_reset(ctx):
+    """a RE-ENTRANT reset function: `match_reset_func` is a caller's callback, consulted in the middle of a sample's
+    search; an interactive teacher doing experience replay answers it only after having presented one or two earlier
+    samples to the very estimator being trained, through the public partial_fit (sometimes handing itself down as the
+    reset function of that inner call too; sometimes it also vetoes a candidate).  Every sample presented — by the outer
+    calls and by the inner ones — is a sample of the training history, so after every OUTER call the property reads:
+    one label per sample presented since the last fit, every label indexes an existing category, no category without a
+    label (non-pruning), n_clusters = stored categories, counters = label histogram with total = samples presented,
+    sample_counter_ = samples presented.  Where in labels_ the inner samples' labels are kept is not prescribed, so the
+    'order of creation' clause is not read off first occurrences here.  Then training goes on with a plain partial_fit."""
+    cov = ctx.cov
+    for i in range(ctx.scale(330, 2600)):
+        r = gen.rng_for(ctx.seed, "C05-reentrant", i)
+        name = REENTRANT[i % len(REENTRANT)]
+        fam, rows = families.build(r, name, r.randint(3, 14), floats=r.random() < 0.25)
+        n = len(rows)
+        X = rows.arrs["X"]
+        calls, j = [], 0
+        for p in gen.compositions(r, n):
+            op = "fit" if (fam.has_fit and r.random() < 0.2) else "pfit"
+            calls.append((op, j, j + p))
+            j += p
+        # the teacher's plan: at which of its consultations (counted over the whole history) it rehearses, which earlier
+        # rows (fractions of the rows handed over so far), whether the inner call is given the teacher as well, and
+        # which consultations it answers with a veto
+        plan = {"rehearse_at": {str(q): [r.random() for _ in range(r.randint(1, 2))]
+                                for q in r.sample(range(0, n + 2), r.randint(1, min(3, n)))},
+                "inner_gets_teacher": r.random() < 0.25,
+                "veto": [r.random() < 0.3 for _ in range(16)] if r.random() < 0.5 else [False]}
+        st = {"q": 0, "since": 0, "upto": 0, "depth": 0, "events": [], "op": None, "in_fit": False}
+        est = fam.make()
+
+        def teacher(x, w, c_, params=None, cache=None):
+            q = st["q"]
+            st["q"] += 1
+            us = plan["rehearse_at"].get(str(q))
+            if us is not None and st["depth"] < 3:
+                idx = sorted({int(u * st["upto"]) for u in us})
+                st["events"].append({"consultation": q, "category": int(c_), "rehearsed_rows": idx, "depth": st["depth"]})
+                st["depth"] += 1
+                st["in_fit"] = st["in_fit"] or st["op"] == "fit"
+                try:
+                    # counted before the call: a label per sample is owed as soon as the sample is handed over
+                    st["since"] += len(idx)
+                    est.partial_fit(X[idx], match_reset_func=teacher if plan["inner_gets_teacher"] else None, **fam.kw())
+                finally:
+                    st["depth"] -= 1
+            return not plan["veto"][q % len(plan["veto"])]
+
+        def scen():
+            # the signature names the situation: an inner call made while the model of the last `fit` was being built
+            # (fit's own per-epoch bookkeeping is in force), or only while partial_fit calls were running
+            return "[reentrant-reset-func" + (",inner-call-during-fit]" if st["in_fit"] else "]")
+
+        desc = dict(fam.describe(), rows=rows.tolist(), calls=calls, reset_func_plan=plan, inner_calls=st["events"])
+        key = (name, fam.spec, desc["rows"], calls, sorted(plan["rehearse_at"].items()), plan["inner_gets_teacher"], plan["veto"])
+        try:
+            for k, (op, a, b) in enumerate(calls):
+                st["upto"], st["op"] = b, op
+                n_ev = len(st["events"])
+                with families.quiet():
+                    if op == "fit":
+                        st["since"], st["in_fit"] = b - a, False
+                        est.fit(X[a:b], match_reset_func=teacher, **fam.kw())
+                    else:
+                        st["since"] += b - a
+                        est.partial_fit(X[a:b], match_reset_func=teacher, **fam.kw())
+                inner = st["events"][n_ev:]
+                check_state(ctx, fam, est, st["since"], desc,
+                            f"after call {k} ({op} rows {a}:{b}) whose reset function called partial_fit {len(inner)} time(s) on the "
+                            f"estimator being trained (rows {[e['rehearsed_rows'] for e in inner]})", positions_in_order=not st["events"], scenario=scen())
+                if inner:
+                    cov.hit(f"reentrant:{op}:inner-partial_fit")
+                    cov.hit(f"reentrant:family:{name}")
+                    if max(e["depth"] for e in inner) > 0:
+                        cov.hit("reentrant:nested-inner-call")
+            # and training simply goes on
+            k = r.randrange(n)
+            fam.pfit(est, rows.sl(k, k + 1))
+            st["since"] += 1
+            check_state(ctx, fam, est, st["since"], dict(desc, then_partial_fit_row=k),
+                        f"plain partial_fit of row {k} after a history with {len(st['events'])} re-entrant inner call(s)",
+                        positions_in_order=not st["events"], scenario=scen())
+            if any(plan["veto"]) and st["events"]:
+                cov.hit("reentrant:with-vetoes")
+            cov.case(key, bool(st["events"]) and len(est.W) >= 2)
+        except Exception as e:
+            cov.hit(f"reentrant:raised:{name}:{exc_enum(e)}")
+            cov.case(key, False)
